@@ -183,7 +183,7 @@ func TestC06Concurrent(t *testing.T) {
 	rapid.Check(t, func(t *rapid.T) {
 		DefaultCheckOrder = true
 		cfg := cGenCfg{RootPlus: true, DataOps: rapid.Bool().Draw(t, "dataops"), NameOps: true, DirRename: true, BigTrunc: true,
-			Focus: rapid.Bool().Draw(t, "focus"), FocusDir: rapid.IntRange(0, 2).Draw(t, "focusdir")}
+			Focus: rapid.Bool().Draw(t, "focus"), FocusDir: rapid.IntRange(0, 2).Draw(t, "focusdir"), HandleOps: rapid.Bool().Draw(t, "handleops")}
 		cc := genConcCase(t, cfg, 0)
 		d := NewDisk(9000)
 		d.SetRecord(false)
